@@ -33,7 +33,8 @@ META = {
              'chunk: 4-9 MiB chunks with short / over-long / error replies'
              '.'
              " Round 12: shards of one scale in different layouts; outdated legacy files beside current .shard files."
-             " Round 18: the dataset behind the URL generated again while an older accessor is alive."),
+             " Round 18: the dataset behind the URL generated again while an older accessor is alive."
+             " Round 19: scale keys with colons, dots, spaces, '+', a sub-directory."),
     "trusted_base": ["vlib/httpd.py implements docs/serving-data.rst",
                      "requests/urllib3", "vlib/refs/sharded_spec.py writer"],
     "assumptions": ["loopback TCP works in the sandbox", "server faults are "
@@ -304,8 +305,13 @@ def check_multiscale(ctx, case):
         d = os.path.join(root, "ds")
         scales = []
         for i, p in enumerate(case["scales"]):
+            # scale keys as datasets have them: "20um", names with a colon
+            # after a word (which looks like a URL scheme), dots, spaces,
+            # a sub-directory
+            style = ("s%d", "iso:%dum", "%dum", "v1.%d", "level %d",
+                     "pyr/%d", "a+b:%d")[case["seed"] % 7]
             scales.append(ds.make_scale(
-                "s%d" % i, p["size"], p["chunk"], "raw",
+                style % i, p["size"], p["chunk"], "raw",
                 sharding=ds.sharding_dict(p["bits"][0], p["bits"][1],
                                           p["bits"][2], p["enc"][0],
                                           p["enc"][1])
